@@ -46,6 +46,8 @@ pub fn vexpr(v: &expr::ValueExpr) -> String {
     match v {
         expr::ValueExpr::Paren(e) => format!("(paren {})", expr_(e)),
         expr::ValueExpr::Amount(a) => amount(a),
+        #[allow(unreachable_patterns)]
+        other => format!("(unknown-variant {})", enc(&format!("{:?}", other))),
     }
 }
 
@@ -62,6 +64,8 @@ pub fn expr_(e: &expr::Expr) -> String {
             format!("(bin {} {} {})", op, expr_(&b.lhs), expr_(&b.rhs))
         }
         expr::Expr::Value(v) => format!("(val {})", vexpr(v)),
+        #[allow(unreachable_patterns)]
+        other => format!("(unknown-variant {})", enc(&format!("{:?}", other))),
     }
 }
 
@@ -69,6 +73,8 @@ pub fn exchange(x: &syntax::Exchange) -> String {
     match x {
         syntax::Exchange::Total(v) => format!("(total {})", vexpr(v)),
         syntax::Exchange::Rate(v) => format!("(rate {})", vexpr(v)),
+        #[allow(unreachable_patterns)]
+        other => format!("(unknown-variant {})", enc(&format!("{:?}", other))),
     }
 }
 
@@ -97,6 +103,8 @@ pub fn meta_value(v: &syntax::MetadataValue) -> String {
     match v {
         syntax::MetadataValue::Text(s) => format!("(text {})", enc(s)),
         syntax::MetadataValue::Expr(s) => format!("(expr {})", enc(s)),
+        #[allow(unreachable_patterns)]
+        other => format!("(unknown-variant {})", enc(&format!("{:?}", other))),
     }
 }
 
@@ -113,6 +121,8 @@ pub fn metadata(m: &syntax::Metadata) -> String {
             s
         }
         syntax::Metadata::KeyValueTag { key, value } => format!("(kv {} {})", enc(key), meta_value(value)),
+        #[allow(unreachable_patterns)]
+        other => format!("(unknown-variant {})", enc(&format!("{:?}", other))),
     }
 }
 
@@ -158,6 +168,8 @@ pub fn entry(e: &plain::LedgerEntry) -> String {
                 syntax::AccountDetail::Comment(s) => format!("(comment {})", enc(s)),
                 syntax::AccountDetail::Note(s) => format!("(note {})", enc(s)),
                 syntax::AccountDetail::Alias(s) => format!("(alias {})", enc(s)),
+                #[allow(unreachable_patterns)]
+                other => format!("(unknown-variant {})", enc(&format!("{:?}", other))),
             })
         ),
         syntax::LedgerEntry::Commodity(c) => format!(
@@ -168,8 +180,12 @@ pub fn entry(e: &plain::LedgerEntry) -> String {
                 syntax::CommodityDetail::Note(s) => format!("(note {})", enc(s)),
                 syntax::CommodityDetail::Alias(s) => format!("(alias {})", enc(s)),
                 syntax::CommodityDetail::Format(a) => format!("(format {})", amount(a)),
+                #[allow(unreachable_patterns)]
+                other => format!("(unknown-variant {})", enc(&format!("{:?}", other))),
             })
         ),
+        #[allow(unreachable_patterns)]
+        other => format!("(unknown-variant {})", enc(&format!("{:?}", other))),
     }
 }
 
